@@ -328,4 +328,99 @@ example :
     (handleRequest n'.cfg n'.lh [l1] { typ := typHostPunchNotification, details := some d }).2.punches.length = 2 := by
   decide
 
+
+/-! ### the reused decode scratch: undecodable packets with a decodable prefix -/
+
+/-- merging a packet into a reset scratch yields the packet's own content. -/
+theorem merge_into_reset_is_identity (p : Packet) :
+    unmarshalInto 0 {} p = (p.msg.typ, p.details.getD {}) := by
+  cases p with
+  | mk typ details ok =>
+    cases details with
+    | none => rfl
+    | some d =>
+      cases d with
+      | mk oldVpn vpn v4 v6 oldRelays relays =>
+        simp only [unmarshalInto, mergeDetails, Packet.msg, Option.getD_some, List.nil_append]
+        congr 1
+        cases vpn <;> by_cases h : oldVpn = 0 <;> simp [h]
+
+/-- Every decode starts from a reset scratch: what `HandleRequest` does with a packet — cache, messages
+sent, punches, trigger, and the scratch it leaves — does not depend on what earlier packets left in the
+scratch. (This is the fact the handler relies on; it holds because `resetMeta` is the first statement.) -/
+theorem decode_starts_from_reset (c : Cfg) (h : HState) (t : Nat) (x : Details) (f : List Addr) (p : Packet) :
+    handlePacket c { h with scratchTyp := t, scratch := x } f p = handlePacket c h f p := rfl
+
+/-- a decodable packet is handled as the message it carries, whatever the scratch held. -/
+theorem packet_is_its_own_message (c : Cfg) (h : HState) (f : List Addr) (p : Packet) (hok : p.ok = true) :
+    (handlePacket c h f p).1.lh = (handleRequest c h.lh f p.msg).1 ∧
+    (handlePacket c h f p).2 = (handleRequest c h.lh f p.msg).2 := by
+  have hm := merge_into_reset_is_identity p
+  simp only [handlePacket, HState.resetMeta, hok, Bool.not_true, Bool.false_eq_true, if_false, hm]
+  exact ⟨rfl, rfl⟩
+
+/-- an undecodable packet — whatever its decodable prefix carries — changes nothing and sends nothing. -/
+theorem undecodable_no_effect (c : Cfg) (h : HState) (f : List Addr) (p : Packet) (hbad : p.ok = false) :
+    (handlePacket c h f p).1.lh = h.lh ∧ (handlePacket c h f p).2.sent = [] ∧
+    (handlePacket c h f p).2.punches = [] ∧ (handlePacket c h f p).2.trigger = none := by
+  simp [handlePacket, HState.resetMeta, hbad]
+
+/-- The lighthouse gate holds for every packet after any earlier packets (decodable or not): a query reply /
+punch notification from a sender that is not a configured lighthouse has no effect, whatever residue the
+scratch holds. -/
+theorem packets_accept_only_from_lighthouses (c : Cfg) (h : HState) (f : List Addr) (p : Packet)
+    (hn : fromLighthouse c f = false)
+    (ht : p.msg.typ = typHostQueryReply ∨ p.msg.typ = typHostPunchNotification) :
+    (handlePacket c h f p).1.lh = h.lh ∧ (handlePacket c h f p).2.sent = [] ∧
+    (handlePacket c h f p).2.punches = [] ∧ (handlePacket c h f p).2.trigger = none := by
+  cases hok : p.ok with
+  | false => exact undecodable_no_effect c h f p hok
+  | true =>
+    obtain ⟨h1, h2⟩ := packet_is_its_own_message c h f p hok
+    rw [h1, h2]
+    exact accepts_only_from_lighthouses c h.lh f p.msg hn ht
+
+/-- MAIN over packet histories: with undecodable packets (carrying arbitrary addresses, relays and claimed
+owners in their decodable prefix) interleaved at will, from any senders: if no DECODABLE packet came from a
+tunnel whose primary authenticated address is `A`, nothing is ever recorded under `A` — in particular an
+undecodable packet of one sender never leaks into the next sender's message. -/
+theorem packets_records_only_owner (c : Cfg) (A : Addr) (pkts : List (List Addr × Packet))
+    (hno : ∀ x ∈ pkts, x.2.ok = true → A ≠ x.1.headD ⟨.v4, 0⟩) :
+    ∀ h : HState, (∀ id rl, h.lh.getList id = some rl → getOwner rl.cache A = none) →
+      ∀ id rl, (runPackets c h pkts).lh.getList id = some rl → getOwner rl.cache A = none := by
+  induction pkts with
+  | nil => intro h hs id rl hg; exact hs id rl hg
+  | cons x rest ih =>
+    intro h hs
+    obtain ⟨f, p⟩ := x
+    simp only [runPackets]
+    apply ih (fun y hy => hno y (List.mem_cons_of_mem _ hy))
+    intro id rl hg
+    cases hok : p.ok with
+    | false =>
+      rw [(undecodable_no_effect c h f p hok).1] at hg
+      exact hs id rl hg
+    | true =>
+      rw [(packet_is_its_own_message c h f p hok).1] at hg
+      rw [records_only_owner c h.lh f p.msg id rl A (hno (f, p) (by simp) hok) hg]
+      cases hg0 : h.lh.getList id with
+      | none => rfl
+      | some rl0 => simp [hs id rl0 hg0]
+
+-- non-vacuity: on a lighthouse, peer P's undecodable packet carrying "evil" addresses and relays, then V's host
+-- update: what is recorded under V is V's own report only, and the scratch residue of P's packet is gone
+example :
+    let c : Cfg := { amLighthouse := true, myNets := [⟨⟨.v4, 0x0a800001⟩, 24⟩], lighthouses := [],
+                     ral := { allowList := none, inside := none }, initV := 2, staticList := [] }
+    let pP : Addr := ⟨.v4, 0x0a80000b⟩
+    let pV : Addr := ⟨.v4, 0x0a80000a⟩
+    let evilD : Details := { oldVpn := 0x0a80000a, v4 := [⟨⟨.v4, 0x06060606⟩, 666⟩], oldRelays := [0x0a80001e], relays := [⟨.v6, 0xffff0a80001f⟩] }
+    let evil : Packet := { typ := some typHostUpdateNotification, ok := false, details := some evilD }
+    let good : Packet := { typ := some typHostUpdateNotification, details := some { v4 := [⟨⟨.v4, 0x01010101⟩, 4242⟩] } }
+    let h := runPackets c {} [([pP], evil), ([pV], good)]
+    (h.lh.getList 0).map (fun rl => (getOwner rl.cache pV).map (fun oc => (oc.v4r, oc.relay))) =
+      some (some ([⟨⟨.v4, 0x01010101⟩, 4242⟩], [])) ∧
+    (handlePacket c {} [pP] evil).1.scratch.v4 = [⟨⟨.v4, 0x06060606⟩, 666⟩] := by
+  decide
+
 end Nebula.Props.C35
